@@ -1,2 +1,138 @@
+//! U3: adoption bookkeeping (`adopt_unchecked` / `unadopt`) on the compiled code with the table stand-in.
+//! Key structure enumerated (distinct objects / one object through two handles / the same handle),
+//! every multiplicity and counter a full-range symbolic usize.
 #![allow(dead_code, unused_imports)]
 use super::*;
+use crate::adopt::Adopt;
+use crate::rc::RcInnerPtr;
+use crate::verif::util::*;
+
+struct Pre {
+    sa: usize,
+    wa: usize,
+    sb: usize,
+    wb: usize,
+    fab: usize,
+    bba: usize,
+    other_a: usize,
+    other_b: usize,
+}
+
+fn setup(a: &Rc<u8>, b: &Rc<u8>) -> Pre {
+    let p = Pre {
+        sa: kani::any(),
+        wa: kani::any(),
+        sb: kani::any(),
+        wb: kani::any(),
+        fab: kani::any(),
+        bba: kani::any(),
+        other_a: kani::any(),
+        other_b: kani::any(),
+    };
+    set_counts(a, p.sa, p.wa);
+    set_counts(b, p.sb, p.wb);
+    // records of the pair under test (0 = absent) and one unrelated record in each table (frame)
+    install(a, fwd(b), p.fab);
+    install(b, bwd(a), p.bba);
+    install(a, bwd(b), p.other_a);
+    install(b, fwd(a), p.other_b);
+    p
+}
+
+fn frame_ok(a: &Rc<u8>, b: &Rc<u8>, p: &Pre) -> bool {
+    a.inner().strong() == p.sa
+        && a.inner().weak() == p.wa
+        && b.inner().strong() == p.sb
+        && b.inner().weak() == p.wb
+        && cnt(a, bwd(b)) == p.other_a
+        && cnt(b, fwd(a)) == p.other_b
+        && cnt(a, lpb(a)) == 0
+        && cnt(b, lpb(b)) == 0
+}
+
+fn keys(x: usize) -> usize {
+    if x > 0 {
+        1
+    } else {
+        0
+    }
+}
+
+#[kani::proof]
+#[kani::unwind(6)]
+fn u3_adopt_distinct() {
+    let a = Rc::new(0u8);
+    let b = Rc::new(1u8);
+    let p = setup(&a, &b);
+    kani::assume(p.fab < MAX && p.bba < MAX);
+    unsafe { Rc::adopt_unchecked(&a, &b) };
+    kani::assert(cnt(&a, fwd(&b)) == p.fab + 1, "U3.adopt.forward_in_owner_plus_one");
+    kani::assert(cnt(&b, bwd(&a)) == p.bba + 1, "U3.adopt.backward_in_target_plus_one");
+    kani::assert(frame_ok(&a, &b, &p), "U3.adopt.frame.no_counter_no_other_record_changes");
+    kani::assert(table_len(&a) == 1 + keys(p.other_a) && table_len(&b) == 1 + keys(p.other_b), "U3.adopt.no_spurious_keys");
+    kani::assert(borrow_free(&a) && borrow_free(&b), "U3.adopt.no_borrow_left");
+    core::mem::forget((a, b));
+}
+
+#[kani::proof]
+#[kani::unwind(6)]
+fn u3_unadopt_distinct() {
+    let a = Rc::new(0u8);
+    let b = Rc::new(1u8);
+    let p = setup(&a, &b);
+    Rc::unadopt(&a, &b);
+    let sat = |x: usize| if x == 0 { 0 } else { x - 1 };
+    kani::assert(cnt(&a, fwd(&b)) == sat(p.fab), "U3.unadopt.forward_minus_one_saturating");
+    kani::assert(cnt(&b, bwd(&a)) == sat(p.bba), "U3.unadopt.backward_minus_one_saturating");
+    kani::assert(frame_ok(&a, &b, &p), "U3.unadopt.frame.no_counter_no_other_record_changes");
+    kani::assert(table_len(&a) == keys(sat(p.fab)) + keys(p.other_a) && table_len(&b) == keys(sat(p.bba)) + keys(p.other_b), "U3.unadopt.entries_reaching_zero_are_deleted");
+    kani::assert(!links_of(&a).borrow().has_zero_entry() && !links_of(&b).borrow().has_zero_entry(), "U3.unadopt.no_zero_entries");
+    kani::assert(borrow_free(&a) && borrow_free(&b), "U3.unadopt.no_borrow_left");
+    core::mem::forget((a, b));
+}
+
+/// the same allocation through two different handles: one forward and one backward record in the one table
+#[kani::proof]
+#[kani::unwind(6)]
+fn u3_adopt_self_through_clone() {
+    let a = Rc::new(0u8);
+    let a2 = alias(&a);
+    let (s, w, f, bk, l): (usize, usize, usize, usize, usize) = (kani::any(), kani::any(), kani::any(), kani::any(), kani::any());
+    kani::assume(f < MAX && bk < MAX);
+    set_counts(&a, s, w);
+    install(&a, fwd(&a), f);
+    install(&a, bwd(&a), bk);
+    install(&a, lpb(&a), l);
+    unsafe { Rc::adopt_unchecked(&a, &a2) };
+    kani::assert(cnt(&a, fwd(&a)) == f + 1 && cnt(&a, bwd(&a)) == bk + 1, "U3.adopt_clone_self.forward_and_backward_plus_one");
+    kani::assert(cnt(&a, lpb(&a)) == l, "U3.adopt_clone_self.loopback_untouched");
+    kani::assert(a.inner().strong() == s && a.inner().weak() == w, "U3.adopt_clone_self.counters_untouched");
+    kani::assert(borrow_free(&a), "U3.adopt_clone_self.no_borrow_left");
+    Rc::unadopt(&a, &a2);
+    kani::assert(cnt(&a, fwd(&a)) == f && cnt(&a, bwd(&a)) == bk && cnt(&a, lpb(&a)) == l, "U3.unadopt_clone_self.inverse_of_adopt");
+    kani::assert(a.inner().strong() == s && a.inner().weak() == w, "U3.unadopt_clone_self.counters_untouched");
+    core::mem::forget((a, a2));
+}
+
+/// the very same handle: a loopback record only
+#[kani::proof]
+#[kani::unwind(6)]
+fn u3_adopt_same_handle() {
+    let a = Rc::new(0u8);
+    let (s, w, f, bk, l): (usize, usize, usize, usize, usize) = (kani::any(), kani::any(), kani::any(), kani::any(), kani::any());
+    kani::assume(l < MAX);
+    set_counts(&a, s, w);
+    install(&a, fwd(&a), f);
+    install(&a, bwd(&a), bk);
+    install(&a, lpb(&a), l);
+    unsafe { Rc::adopt_unchecked(&a, &a) };
+    kani::assert(cnt(&a, lpb(&a)) == l + 1, "U3.adopt_same_handle.loopback_plus_one");
+    kani::assert(cnt(&a, fwd(&a)) == f && cnt(&a, bwd(&a)) == bk, "U3.adopt_same_handle.no_forward_backward_change");
+    kani::assert(a.inner().strong() == s && a.inner().weak() == w, "U3.adopt_same_handle.counters_untouched");
+    Rc::unadopt(&a, &a);
+    kani::assert(cnt(&a, lpb(&a)) == l && cnt(&a, fwd(&a)) == f && cnt(&a, bwd(&a)) == bk, "U3.unadopt_same_handle.inverse_and_only_loopback");
+    Rc::unadopt(&a, &a);
+    kani::assert(cnt(&a, lpb(&a)) == (if l == 0 { 0 } else { l - 1 }) && cnt(&a, fwd(&a)) == f && cnt(&a, bwd(&a)) == bk, "U3.unadopt_same_handle.saturating_noop_when_absent");
+    kani::assert(borrow_free(&a), "U3.same_handle.no_borrow_left");
+    core::mem::forget(a);
+}
